@@ -40,6 +40,11 @@ CLAIMED = {
     note="Trusted: Coq kernel (axiom-free theorems); extraction with ExtrOcamlBasic only (no Extract Constant/Inductive of our own), OCaml 4.13.1, 40-line driver (hex codec); ASCII input only; completeness (every literal of a well-formed token stream is converted) is established by the token-level oracle and the correspondence, not by a theorem; strings / hex floats are recorded known findings.",
     technique="Coq proof (scanner soundness for all strings) + extraction-based correspondence + token-level oracle",
     design="DESIGN.md §3 C15"),
+ "C05": dict(
+    text="Coq theorems over the reals for ALL six angles and detector points: the kernel's qabc/qac matrices applied to (qx,qy) equal R^-1 (qx,qy,0) with R = Rz(phi) Ry(theta) Rz(psi) Rx(dphi) Ry(dtheta) Rz(dpsi) as documented (a polynomial identity, proved structurally through view/jitter factors), the symmetric-shape qab^2 = qa^2+qb^2, norm preservation (orthogonality of the product), parity I(-q) and co-rotation of (qx,qy) with phi. Tied to the code by probe plug-ins whose Iqabc/Iqac return qa|qb|qc resp. qab|qc, evaluated through the public 2-D kernel at random and special view angles with asymmetric hand-made and interface-built jitter meshes in 0..3 angles, compared with the Coq binary64 model of the rotation and of the |cos(dtheta)|-weighted jitter average (sin/cos supplied by the harness) and with a numpy oracle built from the documented matrices; jitter centred on zero and invariances are checked on the kernel.",
+    note="Trusted: Coq kernel; stdlib real axioms (Reals); libm sin/cos as leaves; harness/c05.py. The binding of (qa,qb,qc) to each real model's own function arguments and 1-D inactivity of orientation parameters are exercised by the C12 and C10 checks.",
+    technique="Coq proof (matrix algebra over R for all angles) + probe plug-in correspondence",
+    design="DESIGN.md §3 C05"),
 }
 NA_REASON = "check not built yet in this session (planned, see DESIGN.md §7)"
 
